@@ -31,7 +31,7 @@ inductive Op where
   | constant (name : Sel) (nameValid : Bool) (v : Val)
   | interactive (on : Bool)
   | macroLookup (name : String)
-  | singleton (key : String) (hasCtor : Bool)
+  | singleton (key : String) (hasCtor : Bool) (retNone : Bool := false)
   | observe (what : String)
   | enter (cur : Scope) (arg : ScopeArg)
   | unlock (body : List Op) (raises : Bool)
@@ -132,7 +132,7 @@ mutual
     | .interactive on => ({ st with interactive := on }, .ok)
     | .macroLookup name => match st.resolveMacro name with
         | .ok v => (st, .value v) | .error e => (st, .err e)
-    | .singleton key hasCtor => match st.singletonUse key hasCtor with
+    | .singleton key hasCtor retNone => match st.singletonUse key hasCtor retNone with
         | .ok (st', v) => (st', .value v) | .error e => (st, .err e)
     | .observe what =>
         (st, match what with
@@ -149,6 +149,7 @@ mutual
           | "opprov" => .locs (State.provenanceOf st st.operative)
           | "registry" => .names (st.registry.keys.map (fun s => ".".intercalate s))
           | "constants" => .names (st.constants.keys.map (fun s => ".".intercalate s))
+          | "constructed" => .value (.int st.constructed)   -- how many singleton constructors ran
           | _ => .err (.other "bad-observe"))
     | .enter cur arg => match enterScope cur arg with
         | some s => (st, .scope s) | none => (st, .err .valueError)
